@@ -116,6 +116,7 @@ func arithmeticFoundations(c *Ctx) {
 		esib.CheckMaskedScan(run, p, "SIB-scan")
 		checkExpAll(run, p, exp)
 	}
+	portableWidthRule(c, cfgs[0])
 	run.NotDecided = append(run.NotDecided, "arithmetic foundations: full reduction below L, the amd64/AVX2 assembly (see C04/C05/C06)")
 }
 
@@ -226,4 +227,14 @@ func expFoundations(c *Ctx) {
 		run.SetConfig(id)
 		checkExpAll(run, c.Prog(id), exp)
 	}
+}
+
+// portableWidthRule: PORTABLE-width in one loaded configuration.
+func portableWidthRule(c *Ctx, id string) {
+	if !c.Preload(id) {
+		return
+	}
+	c.Run.SetConfig(id)
+	pw := c.Run.Rule("PORTABLE-width", "no 64-bit integer is converted to a platform-sized integer (the 32-bit targets would compute something else)", 450).RequireControl(1)
+	checkPortableWidth(c.Prog(id), pw)
 }
